@@ -9,6 +9,7 @@ import (
 	"fmt"
 	"os"
 	"sort"
+	"strconv"
 	"strings"
 	"sync"
 	"time"
@@ -36,8 +37,9 @@ type staticCase struct {
 	Queries  map[string]obs.Query `json:"queries"`
 	Sections []string             `json:"sections"`
 	Cores    int                  `json:"cores"`
-	Split    int                  `json:"split"` // partition selector for multi-file compact worlds
-	Order    string               `json:"order"` // "" = ID order, "rev" = reverse ID order (areas arrive before their paths)
+	Split    int                  `json:"split"`    // partition selector for multi-file compact worlds
+	Order    string               `json:"order"`    // "" = ID order, "rev" = reverse ID order (areas arrive before their paths)
+	Replicas int                  `json:"replicas"` // bulk-compact: copies of the source in one world
 }
 
 func features(w obs.AWorld, skipCollections bool, only func(name string) bool) []ingest.Feature {
@@ -288,6 +290,9 @@ func runStatic(data json.RawMessage) vh.Verdict {
 		return runDiff(&c, cm, cores, "pardiff-compact",
 			func(src obs.AWorld) (b6.World, error) { return buildCompactWorld(src, 1) },
 			func(src obs.AWorld) (b6.World, error) { return buildCompactWorld(src, cores) }, "1 goroutine", fmt.Sprintf("%d goroutines", cores))
+	}
+	if c.Impl == "bulk-compact" {
+		return runBulk(&c, cores)
 	}
 	if c.Impl == "pardiff-basic" {
 		return runDiff(&c, cm, cores, "pardiff-basic",
@@ -640,4 +645,125 @@ func referrerDiff(n string, exp, got []string, a, b obs.Observation) string {
 		out = "order"
 	}
 	return out
+}
+
+// runBulk (C36): the source is copied Replicas times into ONE world (the copies of a feature get neighbouring IDs; copies 2j and 2j+1
+// share their tag values "v~j", so every token is new to the index and shared by features of two copies) and built
+// as a compact world, whose index stage runs on all CPUs.  Every token's posting list and every feature must be
+// what the in-memory builder gives for the same source: a token or a feature lost or duplicated by the parallel
+// stages shows as a difference.  Searches are compared token by token, enumeration and lookups feature by feature.
+func runBulk(c *staticCase, cores int) vh.Verdict {
+	k := c.Replicas
+	if k < 2 {
+		k = 100
+	}
+	src := withoutCollections(c.Src)
+	rename := func(n string, r int) string {
+		if len(n) < 2 {
+			return n
+		}
+		v, err := strconv.Atoi(n[1:])
+		if err != nil {
+			return n
+		}
+		return n[:1] + strconv.Itoa(v*k+r) // copies of one feature get neighbouring IDs
+	}
+	big := obs.AWorld{}
+	tokens := map[[2]string]bool{}
+	for r := 0; r < k; r++ {
+		for n, f := range src {
+			if f.Kind == "absent" {
+				continue
+			}
+			g := obs.AFeature{Kind: f.Kind, V: f.V, Tags: map[string]string{}}
+			for _, p := range f.Pts {
+				g.Pts = append(g.Pts, rename(p, r))
+			}
+			for _, poly := range f.Polys {
+				var q []string
+				for _, p := range poly {
+					q = append(q, rename(p, r))
+				}
+				g.Polys = append(g.Polys, q)
+			}
+			for _, m := range f.Members {
+				g.Members = append(g.Members, rename(m, r))
+			}
+			for key, v := range f.Tags {
+				if v == "-" || v == "" {
+					g.Tags[key] = v
+					continue
+				}
+				g.Tags[key] = v + "~" + strconv.Itoa(r/2)
+				tokens[[2]string{key, g.Tags[key]}] = true
+			}
+			big[rename(n, r)] = g
+		}
+	}
+	var bw, cw b6.World
+	var err1, err2 error
+	if !obs.WithDeadline(400*time.Second, func() {
+		bw, err1 = buildBasicFromSource(big, 1)
+		cw, err2 = buildCompactWorld(big, cores)
+	}) {
+		return vh.Verdict{OK: false, Key: "bulk:build:hang", Msg: "build did not finish within 400 s"}
+	}
+	if err1 != nil || err2 != nil {
+		return vh.Verdict{OK: false, Key: "bulk:build:error", Msg: fmt.Sprintf("build failed: basic %v; compact %v", err1, err2)}
+	}
+	list := func(w b6.World, q b6.Query) []string {
+		var out []string
+		it := w.FindFeatures(q)
+		for it.Next() {
+			out = append(out, obs.Name(it.FeatureID()))
+		}
+		sort.Strings(out)
+		return out
+	}
+	stats := map[string]int{"worlds_built": 2, "bulk_features": len(big), "bulk_tokens": len(tokens)}
+	var keys [][2]string
+	for t := range tokens {
+		keys = append(keys, t)
+	}
+	sort.Slice(keys, func(i, j int) bool { return keys[i][0]+"="+keys[i][1] < keys[j][0]+"="+keys[j][1] })
+	bad := func(key, msg string) vh.Verdict {
+		return vh.Verdict{OK: false, Key: key, Msg: msg, Stats: stats,
+			Obs: map[string]interface{}{"mismatches": []mismatch{{Step: -1, Section: "bulk", Key: key, Msg: msg}}}}
+	}
+	var verdict *vh.Verdict
+	if !obs.WithDeadline(240*time.Second, func() {
+		for _, t := range keys {
+			if !strings.HasPrefix(t[0], "#") && !strings.HasPrefix(t[0], "@") {
+				continue // not a searchable key
+			}
+			q := b6.Tagged{Key: t[0], Value: b6.NewStringExpression(t[1])}
+			a, b := list(bw, q), list(cw, q)
+			stats["bulk_token_queries"]++
+			if !obs.SameList(a, b) {
+				v := bad("bulk:search:tagged:"+listDiff(a, b), fmt.Sprintf("%d copies of the source in one world: FindFeatures(%s=%s): basic %v, compact (index stage on all CPUs) %v", k, t[0], t[1], a, b))
+				verdict = &v
+				return
+			}
+		}
+		a, b := list(bw, b6.All{}), list(cw, b6.All{})
+		if !obs.SameList(a, b) {
+			v := bad("bulk:search:all:"+listDiff(a, b), fmt.Sprintf("%d copies: FindFeatures(all): basic %d features, compact %d", k, len(a), len(b)))
+			verdict = &v
+			return
+		}
+		for n := range big {
+			fa, fb := bw.FindFeatureByID(obs.ID(n)), cw.FindFeatureByID(obs.ID(n))
+			if (fa == nil) != (fb == nil) {
+				v := bad("bulk:lookup:presence", fmt.Sprintf("%d copies: %s: basic present=%v compact present=%v", k, n, fa != nil, fb != nil))
+				verdict = &v
+				return
+			}
+		}
+	}) {
+		return vh.Verdict{OK: false, Key: "bulk:observe:hang", Msg: "queries did not finish within 240 s"}
+	}
+	if verdict != nil {
+		return *verdict
+	}
+	return vh.Verdict{OK: true, Stats: stats}
 }
